@@ -6,6 +6,7 @@ import (
 	"encoding/json"
 	"fmt"
 	"sort"
+	"strconv"
 	"strings"
 	"testing"
 	"time"
@@ -158,17 +159,32 @@ var families = []string{"strings", "lists", "hashes", "sets", "zsets", "streams"
 // state or on timing: not part of "what a deterministic command means"
 func excluded(cmd kit.Cmd) bool {
 	name := strings.ToLower(string(cmd[0]))
+	// a deadline is only part of a comparable program when it is refused (not positive, not a number) or so
+	// far away that no replica reaches it while the case runs (every replica adds it to its own clock)
+	farOrRefused := func(arg kit.B, far int64) bool {
+		n, err := strconv.ParseInt(string(arg), 10, 64)
+		return err != nil || n <= 0 || n >= far
+	}
 	switch name {
-	case "spop", "srandmember", "hrandfield", "blpop", "brpop", "ttl", "expire", "persist", "setex", "subscribe", "publish", "select", "rconf", "member":
+	case "spop", "srandmember", "hrandfield", "blpop", "brpop", "ttl", "subscribe", "publish", "select", "rconf", "member":
 		return true
+	case "expire", "setex":
+		return len(cmd) < 3 || !farOrRefused(cmd[2], 100000)
 	case "set":
-		if len(cmd) < 4 {
-			return false
-		}
-		for _, a := range cmd[3:] {
-			switch strings.ToLower(string(a)) {
-			case "ex", "px", "exat", "keepttl":
-				return true
+		for i := 3; i < len(cmd); i++ {
+			switch strings.ToLower(string(cmd[i])) {
+			case "ex":
+				if i+1 >= len(cmd) || !farOrRefused(cmd[i+1], 100000) {
+					return true
+				}
+			case "px":
+				if i+1 >= len(cmd) || !farOrRefused(cmd[i+1], 100000000) {
+					return true
+				}
+			case "exat":
+				if i+1 >= len(cmd) || !farOrRefused(cmd[i+1], 4000000000) {
+					return true
+				}
 			}
 		}
 	case "xadd":
@@ -188,7 +204,7 @@ func genHostile(t *rapid.T) prog.Program {
 	v := func() string { return rapid.SampledFrom(vals).Draw(t, "hv") }
 	k := func() string { return gen.Pick(t, "hk", "k", "k 1", "", "K", "k\r\n", "\xffk") }
 	for i := 0; i < n; i++ {
-		switch rapid.IntRange(0, 9).Draw(t, "hop") {
+		switch rapid.IntRange(0, 10).Draw(t, "hop") {
 		case 0:
 			p.Ops = append(p.Ops, kit.MkCmd(gen.CaseOf(t, "set"), k(), v()), kit.MkCmd("GET", k()))
 		case 1:
@@ -207,6 +223,9 @@ func genHostile(t *rapid.T) prog.Program {
 			p.Ops = append(p.Ops, kit.MkCmd("MSET", k(), v(), k(), v()), kit.MkCmd("MGET", k(), k()))
 		case 8:
 			p.Ops = append(p.Ops, kit.MkCmd("DEL", k()), kit.MkCmd("EXISTS", k(), k()), kit.MkCmd("TYPE", k()))
+		case 9:
+			// what stands in the place of the command name is one byte string like the others
+			p.Ops = append(p.Ops, kit.MkCmd(gen.Pick(t, "hname", "SET k", "set  k", "GET k", "", " ", "PING x", "del k", "SET\r\n", "\xffSET", "LPUSH k"), k(), v()), kit.MkCmd("KEYS", "*"))
 		default:
 			p.Ops = append(p.Ops, kit.MkCmd("PING", v()), kit.MkCmd("KEYS", "*"), kit.MkCmd("RENAME", k(), k()))
 		}
